@@ -259,6 +259,20 @@ static void part1()
     eq_laws(ea, cb, expected, 160);
     eq_laws(ra, eb, expected, 170);
     verif_assert(ra == ra && !(ra != ra) && ca == ra && ea == ea && ea == ra && ra == ea, 180);  // reflexivity
+    // spare capacity: an element that keeps the (possibly larger) block of an earlier value compares by content only
+    bool same_fixed_sizes = true;
+    for (usize j = 0; j < LT::N; ++j)
+    {
+        same_fixed_sizes = same_fixed_sizes && ma.fixed[j] == mb.fixed[j];
+    }
+    if (same_fixed_sizes)
+    {
+        Elem ex(rb);
+        ex = ea;
+        eq_laws(ex, ea, true, 190);
+        eq_laws(ex, eb, expected, 194);
+        verif_assert((ex == ra) && (ex == ca) && (ra == ex), 198);
+    }
 }
 
 static void part2()
